@@ -302,3 +302,22 @@ Fixpoint next_statement (toks : list (Z * bool)) (ridx rcount : Z) : rstate :=
 
 Definition ns (s : rstate) : rstate :=
   let '(t, r, c) := s in next_statement t r c.
+
+(* ------------------------------------------------------------------ *)
+(* The `in` operator inside the first clause of a for statement (scope.allowIn in
+   parser/expression.go).  The clause is abstracted to the sequence of its operators outside
+   every bracket and outside the middle operand of ?: (operands are opaque):
+   0 an operator binding tighter than the relational ones (+ - * / % << >> >>>),
+   1 a relational operator other than in (< <= > >= instanceof), 2 in,
+   3.. anything binding looser (== != === !== & ^ | && || ?: = and the comma).
+   parseRelationalExpression switches allowIn on once it has its left operand and parses the
+   right operand of < <= > >= instanceof by a recursive call: an `in` there is accepted. *)
+Fixpoint noin_m (r : bool) (ops : list Z) : bool :=
+  match ops with
+  | [] => true
+  | o :: l =>
+      if o =? 1 then noin_m true l
+      else if o =? 2 then r && noin_m r l
+      else if o =? 0 then noin_m r l
+      else noin_m false l
+  end.
